@@ -54,6 +54,8 @@ def run_history(acc: Acc, r: random.Random, workdir: str, hid: int, n_steps: int
 	# per module: sequence number at which its output was last written, and the content written then
 	written_at = {k: h.edit_seq for k in keys}
 	written_text = {k: h.outputs().get(h.output_rel(k)) for k in keys}
+	# sources (own and of the import closure) at the moment the output of k was last written: the classification below is by content, not by edit count
+	written_src = {k: {d: h.hp.source(d) for d in [k, *h.hp.closure_of(k)]} for k in keys}
 	for step in range(n_steps):
 		pending_regen: set[str] = set()   # modules whose recorded header differs from the current one (must be regenerated)
 		n_ops = r.choice([1, 1, 2, 3])
@@ -103,6 +105,7 @@ def run_history(acc: Acc, r: random.Random, workdir: str, hid: int, n_steps: int
 					outs = h.outputs()
 					for k in keys:
 						written_at[k] = h.edit_seq
+						written_src[k] = {d: h.hp.source(d) for d in [k, *h.hp.closure_of(k)]}
 						written_text[k] = outs.get(h.output_rel(k))
 		# which modules must a non-forced run regenerate? decided by the harness from the files on disk (header vs current header)
 		before_text = h.outputs()
@@ -167,8 +170,8 @@ def run_history(acc: Acc, r: random.Random, workdir: str, hid: int, n_steps: int
 			rel = h.output_rel(k)
 			if after_text[rel] != cold[rel]:
 				# classify for the known-findings predicate: stale although only something in the import closure changed
-				own_unchanged = h.last_change[k] <= written_at[k]
-				closure_changed = [d for d in h.hp.closure_of(k) if h.last_change[d] > written_at[k]]
+				own_unchanged = h.hp.source(k) == written_src[k][k]
+				closure_changed = [d for d in h.hp.closure_of(k) if h.hp.source(d) != written_src[k][d]]
 				untouched = after_text[rel] == written_text[k]
 				d = diff_outputs({rel: after_text[rel]}, {rel: cold[rel]})
 				tag = f'[own-source-unchanged={own_unchanged} closure-changed={sorted(closure_changed)} content-as-last-written={untouched}]'
@@ -182,11 +185,13 @@ def run_history(acc: Acc, r: random.Random, workdir: str, hid: int, n_steps: int
 			outs = h.outputs()
 			for k in keys:
 				written_at[k] = h.edit_seq
+				written_src[k] = {d: h.hp.source(d) for d in [k, *h.hp.closure_of(k)]}
 				written_text[k] = outs.get(h.output_rel(k))
 			continue
 		for k in keys:
 			if k in pending_regen or after_text[h.output_rel(k)] != before_text.get(h.output_rel(k)):
 				written_at[k] = h.edit_seq
+				written_src[k] = {d: h.hp.source(d) for d in [k, *h.hp.closure_of(k)]}
 				written_text[k] = after_text[h.output_rel(k)]
 
 
